@@ -1,7 +1,772 @@
-import VncModel.Clip.Model
+import VncModel.Clip.Lemmas
+/-!
+# C18 — Clipboard text is transferred intact in both directions
+
+Property theorems only (helper lemmas: `VncModel/Clip/Lemmas.lean`).  The model
+(`VncModel/Clip/Model.lean`) mirrors the ClientCutText handler, `rfbProcessExtendedServerCutTextData`,
+`rfbSendServerCutText(UTF8)` and the capability / notify / provide senders of the server, and
+`SendClientCutText(UTF8)`, the ServerCutText case of `HandleRFBServerMessage` and
+`rfbClientProcessExtServerCutText` of LibVNCClient — with the three fixes `fixes/C18-*.diff`.
+It is tied to the code by the correspondence run `harness/c18.c` ⇄ `Driver/C18.lean`; the limits,
+flag bits, default capabilities and the two fixed server messages come from `VncModel.Gen.C18`,
+regenerated from /repo on every run, so every theorem below is re-proved against the current values.
+
+zlib is a parameter `Z : Zlib`; theorems that need it assume `ZLaw Z`
+(`inflateAll (compress x) = ⟨x, done⟩`, `inflateAll (compressSync x) = ⟨x, more⟩`, non-empty
+output).  `env : Env` is the content of uninitialised memory the code may read; all theorems hold
+for every `env`.
+
+Quantifiers: every text (any bytes: embedded NULs, invalid UTF-8), every flag word, every client
+state and population, every zlib satisfying the laws, every input that follows the message
+(`rest`), i.e. every continuation of the history.
+
+What the code does with the NUL: `SendClientCutTextUTF8(t)` and `rfbSendServerCutTextUTF8(t)` both
+transmit the record `t ++ [0]` (declared size `|t| + 1`); the receiving callbacks
+(`setXCutTextUTF8`, `GotXCutTextUTF8`) get exactly these `|t| + 1` bytes, NUL included.  The classic
+message carries `t` alone; `GotXCutText` additionally finds a NUL after the `|t|` bytes (checked by
+the harness, not a model statement).
+
+Partial: texts so close to 1 MiB that the *compressed* message exceeds the message limit are
+excluded by the hypotheses `4 + |compress …| ≤ limit` (that depends on zlib's output size, which is
+not modelled); write/allocation failures are not modelled.
+-/
 namespace VncModel.Props.C18
 open VncModel.Clip VncModel.Gen.C18
 
-theorem placeholder_partial : neg32 0 = 0 := by decide
+/-! ## 1. client → application -/
+
+/-- **classic ClientCutText**: `SendClientCutText(t)` followed by any further input `rest`: the
+application callback `setXCutText` receives exactly `t` (length `|t|`), unless the client is
+view-only; nothing is sent back, the client's state is unchanged, processing continues with `rest`. -/
+theorem client_to_app_exact_classic (Z : Zlib) (env : Env) (cfg : Cfg) (cl : Cl) (t rest : Bytes)
+    (ho : cl.isOpen = true) (hl : t.length ≤ srvMsgLimit) :
+    feed Z env cfg cl (cliSendClassic t ++ rest) =
+      ⟨(feed Z env cfg cl rest).cl,
+       (if cl.viewOnly then [] else [Cb.latin1 t]) ++ (feed Z env cfg cl rest).cbs,
+       (feed Z env cfg cl rest).out, (feed Z env cfg cl rest).unmodelled⟩ := by
+  have hstep := stepMsg_classic Z env cfg cl t rest hl
+  have hform : cliSendClassic t ++ rest =
+      UInt8.ofNat msgClientCutText :: (([0, 0, 0] ++ be32 t.length ++ t) ++ rest) := by
+    simp [cliSendClassic]
+  rw [hform] at hstep ⊢
+  have hk : 8 + t.length = ([0, 0, 0] ++ be32 t.length ++ t : Bytes).length + 1 := by
+    simp [be32_length]; omega
+  rw [hk] at hstep
+  rw [feed_msg_append Z env cfg cl cl _ _ rest _ _ ho hstep]
+  simp
+
+/-- non-vacuity: a text with an embedded NUL and a non-UTF-8 byte, default client -/
+example : (feed ⟨fun _ => ⟨[], .err⟩, id, id⟩ ⟨0⟩ ⟨true⟩ {} (cliSendClassic [104, 0, 255])).cbs
+    = [Cb.latin1 [104, 0, 255]] := by
+  have h := client_to_app_exact_classic ⟨fun _ => ⟨[], .err⟩, id, id⟩ ⟨0⟩ ⟨true⟩ {} [104, 0, 255] []
+    rfl (by decide)
+  simp only [List.append_nil, feed_nil] at h
+  rw [h]; rfl
+
+/-- **extended provide, general form**: any provide(text) message (flag word with the provide bit,
+no caps/request/peek bit, text as the only format; other bits arbitrary) whose zlib payload inflates
+to a record `[|d| BE32] ++ d` with `1 ≤ |d| ≤ limit` — finished or sync-flushed stream, possibly
+with trailing output — makes `setXCutTextUTF8` receive exactly `d`, and nothing else happens. -/
+theorem client_to_app_exact_provide (Z : Zlib) (env : Env) (cfg : Cfg) (cl : Cl) (flags : Nat)
+    (z d extra rest : Bytes) (fin : Fin)
+    (ho : cl.isOpen = true) (he : cl.ext = true) (hfl : flags < 4294967296)
+    (hcaps : flags.testBit bCaps = false) (hreq : flags.testBit bRequest = false)
+    (hpeek : flags.testBit bPeek = false) (hprov : flags.testBit bProvide = true)
+    (htext : flags.testBit 0 = true) (hother : ∀ i, 1 ≤ i → i < 16 → flags.testBit i = false)
+    (hz : Z.inflateAll z = ⟨record d ++ extra, fin⟩) (hne : z ≠ [])
+    (hd1 : d ≠ []) (hd2 : d.length ≤ srvRecLimit) (hfin : extra = [] → fin ≠ .err)
+    (hm : 4 + z.length ≤ srvMsgLimit) :
+    feed Z env cfg cl ((6 : UInt8) :: 0 :: 0 :: 0 :: (be32 (neg32 (4 + z.length)) ++ ((be32 flags ++ z) ++ rest))) =
+      ⟨(feed Z env cfg cl rest).cl,
+       (if !cl.viewOnly && cfg.cb8 then [Cb.utf8 d] else []) ++ (feed Z env cfg cl rest).cbs,
+       (feed Z env cfg cl rest).out, (feed Z env cfg cl rest).unmodelled⟩ := by
+  have hbl : (be32 flags ++ z).length = 4 + z.length := by simp [be32_length]
+  have hstep := stepMsg_ext Z env cfg cl (be32 flags ++ z) rest he (by omega) (by omega)
+  rw [handleExt_provide_text Z env cfg cl flags hfl z d extra fin hcaps hreq hpeek hprov htext hother
+    hz hne hd1 hd2 hfin] at hstep
+  simp only [ho, if_true, hbl] at hstep
+  have hform : (6 : UInt8) :: 0 :: 0 :: 0 :: (be32 (neg32 (4 + z.length)) ++ ((be32 flags ++ z) ++ rest)) =
+      (6 : UInt8) :: (([0, 0, 0] ++ be32 (neg32 (4 + z.length)) ++ (be32 flags ++ z)) ++ rest) := by
+    simp
+  rw [hform] at hstep ⊢
+  have hk : 8 + (4 + z.length) =
+      ([0, 0, 0] ++ be32 (neg32 (4 + z.length)) ++ (be32 flags ++ z) : Bytes).length + 1 := by
+    simp [be32_length]; omega
+  rw [hk] at hstep
+  rw [feed_msg_append Z env cfg cl cl _ _ rest _ _ ho hstep]
+  simp
+
+/-- the notify(text) message LibVNCClient sends before every provide is ignored by the server -/
+theorem client_notify_ignored (Z : Zlib) (env : Env) (cfg : Cfg) (cl : Cl) (rest : Bytes)
+    (ho : cl.isOpen = true) (he : cl.ext = true) :
+    feed Z env cfg cl (cliNotifyMsg ++ rest) = feed Z env cfg cl rest := by
+  have hnstep : stepMsg Z env cfg cl ((6 : UInt8) :: 0 :: 0 :: 0 ::
+      (be32 (neg32 (be32 cliNotifyFlags).length) ++ (be32 cliNotifyFlags ++ rest))) =
+      Step.next cl [] [] (8 + (be32 cliNotifyFlags).length) := by
+    have h := stepMsg_ext Z env cfg cl (be32 cliNotifyFlags) rest he (by simp [be32_length])
+      (by simp [be32_length, srvMsgLimit])
+    have hh : handleExt Z env cfg cl (be32 cliNotifyFlags) = ⟨cl, [], []⟩ := by
+      have hrd : rd32 (be32 cliNotifyFlags) = cliNotifyFlags := rd32_be32' _ (by decide)
+      unfold handleExt
+      simp only [hrd, be32_length, extMinLen]
+      have h1 : cliNotifyFlags.testBit bCaps = false := by decide
+      have h2 : cliNotifyFlags.testBit bRequest = false := by decide
+      have h3 : cliNotifyFlags.testBit bPeek = false := by decide
+      have h4 : cliNotifyFlags.testBit bProvide = false := by decide
+      simp [h1, h2, h3, h4]
+    rw [hh] at h
+    simpa [ho] using h
+  have hform : cliNotifyMsg ++ rest =
+      (6 : UInt8) :: (([0, 0, 0] ++ be32 (neg32 4) ++ be32 cliNotifyFlags) ++ rest) := by
+    simp [cliNotifyMsg, msgClientCutText]
+  have hform2 : (6 : UInt8) :: 0 :: 0 :: 0 ::
+      (be32 (neg32 (be32 cliNotifyFlags).length) ++ (be32 cliNotifyFlags ++ rest)) =
+      (6 : UInt8) :: (([0, 0, 0] ++ be32 (neg32 4) ++ be32 cliNotifyFlags) ++ rest) := by
+    simp [be32_length]
+  rw [hform2] at hnstep
+  have hk : 8 + (be32 cliNotifyFlags).length =
+      ([0, 0, 0] ++ be32 (neg32 4) ++ be32 cliNotifyFlags : Bytes).length + 1 := by
+    simp [be32_length]
+  rw [hk] at hnstep
+  rw [hform, feed_msg_append Z env cfg cl cl _ _ _ _ _ ho hnstep]
+  simp
+
+/- Full-strength statement of the extended direction, NOT provable because it is false of the code:
+
+     ∀ t, t.length + 1 ≤ 2^20 → SendClientCutTextUTF8(t) makes setXCutTextUTF8 receive t ++ [0]
+
+   The server bounds the length of the *compressed* message by the same 1 MiB, so a text that does
+   not compress (random bytes) within a few hundred bytes of 1 MiB is refused and the connection
+   closed (`client_to_app_compressed_oversize` below proves exactly that, for every zlib).  What
+   is proved is the statement for every text whose compressed message fits — the exact
+   characterisation: delivered intact iff `4 + |compressSync (record (t ++ [0]))| ≤ srvMsgLimit`. -/
+
+/-- **extended, LibVNCClient as the sender** (composition under the zlib law): what
+`SendClientCutTextUTF8(t)` writes — notify(text), then provide(text) of `t` plus NUL, sync-flushed —
+is accepted by the server handler, and `setXCutTextUTF8` receives exactly `t ++ [0]`, length `|t|+1`.
+Partial: hypothesis `hm` (the compressed message fits the limit), see the comment above. -/
+theorem client_to_app_exact_partial (Z : Zlib) (hZ : ZLaw Z) (env : Env) (cfg : Cfg) (cl : Cl) (c : LC)
+    (t rest : Bytes) (ho : cl.isOpen = true) (he : cl.ext = true) (hc : c.caps ≠ 0)
+    (hsize : t.length + 1 ≤ srvRecLimit)
+    (hm : 4 + (Z.compressSync (record (t ++ [0]))).length ≤ srvMsgLimit) :
+    ∃ w, cliSendUtf8 Z c t = some w ∧
+      feed Z env cfg cl (w ++ rest) =
+        ⟨(feed Z env cfg cl rest).cl,
+         (if !cl.viewOnly && cfg.cb8 then [Cb.utf8 (t ++ [0])] else []) ++ (feed Z env cfg cl rest).cbs,
+         (feed Z env cfg cl rest).out, (feed Z env cfg cl rest).unmodelled⟩ := by
+  refine ⟨cliNotifyMsg ++ cliProvideMsg (Z.compressSync (record (t ++ [0]))), by simp [cliSendUtf8, hc], ?_⟩
+  rw [List.append_assoc, client_notify_ignored Z env cfg cl _ ho he]
+  have hp := client_to_app_exact_provide Z env cfg cl cliProvideFlags
+    (Z.compressSync (record (t ++ [0]))) (t ++ [0]) [] rest .more ho he (by decide)
+    (by decide) (by decide) (by decide) (by decide) (by decide) (bits_of_range _ (by decide))
+    (by simpa using hZ.inflate_sync (record (t ++ [0]))) (hZ.sync_ne _) (by simp) (by simpa using hsize)
+    (by intro _ h; cases h) hm
+  have hpf : cliProvideMsg (Z.compressSync (record (t ++ [0]))) ++ rest =
+      (6 : UInt8) :: 0 :: 0 :: 0 :: (be32 (neg32 (4 + (Z.compressSync (record (t ++ [0]))).length)) ++
+        ((be32 cliProvideFlags ++ Z.compressSync (record (t ++ [0]))) ++ rest)) := by
+    simp [cliProvideMsg, msgClientCutText]
+  rw [hpf, hp]
+
+/-- **the excluded texts really are refused**: if the compressed provide message is longer than the
+message limit, the server closes the connection of the sending client (and only that one,
+`oversize_closes_only_offender`) without any callback — whatever `t` is. -/
+theorem client_to_app_compressed_oversize (Z : Zlib) (env : Env) (cfg : Cfg) (cl : Cl) (c : LC)
+    (t rest : Bytes) (ho : cl.isOpen = true) (he : cl.ext = true) (hc : c.caps ≠ 0)
+    (hbig : 4 + (Z.compressSync (record (t ++ [0]))).length > srvMsgLimit)
+    (h31 : 4 + (Z.compressSync (record (t ++ [0]))).length ≤ 2147483648) :
+    ∃ w, cliSendUtf8 Z c t = some w ∧ feed Z env cfg cl (w ++ rest) = ⟨closeCl cl, [], [], false⟩ := by
+  refine ⟨cliNotifyMsg ++ cliProvideMsg (Z.compressSync (record (t ++ [0]))), by simp [cliSendUtf8, hc], ?_⟩
+  rw [List.append_assoc, client_notify_ignored Z env cfg cl _ ho he]
+  have hpf : cliProvideMsg (Z.compressSync (record (t ++ [0]))) ++ rest =
+      (6 : UInt8) :: 0 :: 0 :: 0 :: (be32 (neg32 (4 + (Z.compressSync (record (t ++ [0]))).length)) ++
+        ((be32 cliProvideFlags ++ Z.compressSync (record (t ++ [0]))) ++ rest)) := by
+    simp [cliProvideMsg, msgClientCutText]
+  rw [hpf]
+  exact feed_closedStep Z env cfg cl _ _ _ _ _ ho (stepMsg_ext_oversize Z env cfg cl 0 0 0 _ _ he hbig h31)
+
+/-- witness for the exclusion: with the tagged-identity zlib (which satisfies `ZLaw`) a text of
+`2^20 - 6` bytes satisfies the record limit but its message does not fit -/
+example : ∃ t : Bytes,
+    t.length + 1 ≤ srvRecLimit ∧ 4 + ((2 : UInt8) :: record (t ++ [0])).length > srvMsgLimit :=
+  ⟨List.replicate 1048570 7, by rw [List.length_replicate]; decide, by
+    simp only [List.length_cons, record_length, List.length_append, List.length_replicate,
+      List.length_nil]
+    decide⟩
+
+/-! ## 2. application → every connected client -/
+
+/-- what one client must receive when the application publishes UTF-8 text `t` with optional
+Latin-1 fallback `fb` — written as a specification, independently of `sendUtf8One` -/
+def expectUtf8 (cl : Cl) (t : Bytes) (fb : Option Bytes) : List SMsg :=
+  if cl.isOpen = false then []
+  else if cl.ext = true then
+    if cl.userCap.testBit bProvide = true ∧ t.length ≤ cl.maxUnsol then [.provide (record (t ++ [0]))]
+    else if cl.userCap.testBit bNotify = true then [.notify]
+    else []
+  else match fb with
+    | some f => [.classic f]
+    | none => []
+
+/-- **`rfbSendServerCutTextUTF8` for every population** of extended, classic, not-yet-NORMAL and
+closed clients: each open extended client gets exactly one provide whose record is `t ++ [0]` with
+declared size `|t| + 1` (if its capabilities allow an unsolicited provide of `|t|` bytes), else one
+notify (if it accepts notifies), else nothing — never the fallback; each open classic client gets
+exactly the Latin-1 fallback (nothing if there is none); closed clients get nothing; and every
+extended client's cache then holds `t ++ [0]` for a later request. -/
+theorem app_to_clients_exact (s : Sys) (t : Bytes) (fb : Option Bytes) :
+    (s.pub8 t fb).2 = s.cls.map (fun p => (p.1, expectUtf8 p.2 t fb)) ∧
+    (s.pub8 t fb).1.cls = s.cls.map (fun p =>
+      (p.1, if p.2.isOpen = true ∧ p.2.ext = true then { p.2 with data := some (t ++ [0]) } else p.2)) := by
+  constructor
+  · simp only [Sys.pub8]
+    apply List.map_congr_left
+    intro p _
+    simp only [sendUtf8One, expectUtf8]
+    cases p.2.isOpen <;> cases p.2.ext <;> cases fb <;>
+      cases hP : p.2.userCap.testBit bProvide <;> cases hN : p.2.userCap.testBit bNotify <;>
+      by_cases hle : t.length ≤ p.2.maxUnsol <;> simp [hle]
+  · simp only [Sys.pub8]
+    apply List.map_congr_left
+    intro p _
+    simp only [sendUtf8One]
+    cases p.2.isOpen <;> cases p.2.ext <;> cases fb <;>
+      cases hP : p.2.userCap.testBit bProvide <;> cases hN : p.2.userCap.testBit bNotify <;>
+      by_cases hle : t.length ≤ p.2.maxUnsol <;> simp [hle]
+
+/-- **`rfbSendServerCutText` (classic) for every population**: every client whose socket is open —
+extended or not, NORMAL or still in the handshake — gets exactly `t`; closed ones nothing. -/
+theorem app_to_clients_exact_classic (s : Sys) (t : Bytes) :
+    s.pub t = s.cls.map (fun p => (p.1, if p.2.isOpen = true then [SMsg.classic t] else [])) := by
+  simp only [Sys.pub, sendClassicOne]
+
+/-- the bytes on the wire: classic = type 3, padding, `|t|` big-endian, `t`; provide = type 3,
+padding, minus (4 + compressed size) as a 32-bit two's complement, the provide|text flag word, the
+zlib stream of `[|t|+1 BE32] ++ t ++ [0]` -/
+theorem app_to_clients_wire (Z : Zlib) (t : Bytes) :
+    SMsg.wire Z (.classic t) = [3, 0, 0, 0] ++ be32 t.length ++ t ∧
+    SMsg.wire Z (.provide (record (t ++ [0]))) =
+      [3, 0, 0, 0] ++ be32 (neg32 (4 + (Z.compress (be32 (t.length + 1) ++ t ++ [0])).length)) ++
+        be32 (2 ^ 28 + 1) ++ Z.compress (be32 (t.length + 1) ++ t ++ [0]) := by
+  constructor
+  · rfl
+  · simp [SMsg.wire, record, msgServerCutText, srvProvideFlags, bProvide, bText]
+
+/-- non-vacuity: a mixed population (extended with small unsolicited limit, extended default,
+classic, closed) -/
+example : (Sys.pub8 ⟨⟨true⟩, [(0, { ext := true, maxUnsol := 2 }), (1, { ext := true }), (2, {}),
+      (3, { isOpen := false })]⟩ [65, 66, 67] (some [63])).2 =
+    [(0, [.notify]), (1, [.provide (record [65, 66, 67, 0])]), (2, [.classic [63]]), (3, [])] := by
+  decide
+
+/-! ## 3. capability negotiation -/
+
+/-- **enabling**: a SetEncodings message listing the pseudo-encoding `k > 0` times enables the
+extension and sends the capability message `k` times — if and only if the application installed
+`setXCutTextUTF8`; otherwise (or with `k = 0`) the clipboard state is untouched. -/
+theorem caps_negotiation_enable (Z : Zlib) (env : Env) (cfg : Cfg) (cl : Cl) (pad : UInt8)
+    (encs : List Nat) (rest : Bytes) (hn : encs.length < 65536) (he : ∀ e ∈ encs, e < 4294967296) :
+    stepMsg Z env cfg cl ((2 : UInt8) :: pad :: UInt8.ofNat (encs.length / 256) ::
+        UInt8.ofNat (encs.length % 256) :: (encs.flatMap be32 ++ rest)) =
+      (if cfg.cb8 = true ∧ encs.count encExtendedClipboard > 0 then
+        Step.next { cl with ext := true } [] (List.replicate (encs.count encExtendedClipboard) .caps)
+          (4 + 4 * encs.length)
+       else Step.next cl [] [] (4 + 4 * encs.length)) := by
+  have hlen := flatMap_be32_length encs
+  have hcnt := countExt_flatMap encs he
+  have hnn : (UInt8.ofNat (encs.length / 256)).toNat * 256 + (UInt8.ofNat (encs.length % 256)).toNat
+      = encs.length := by
+    simp only [UInt8.toNat_ofNat']; omega
+  simp only [stepMsg]
+  rw [if_neg (by decide), if_pos (by decide)]
+  simp only [stepEnc, hnn, szSetEncodingsMsg]
+  have htake : (encs.flatMap be32 ++ rest).take (4 * encs.length) = encs.flatMap be32 :=
+    List.take_left' hlen
+  rw [htake, hcnt]
+  simp [hlen]
+
+/-- **no extended traffic without negotiation** (all histories): as long as the application has not
+installed `setXCutTextUTF8`, no input whatsoever enables the extension or produces a UTF-8 callback. -/
+theorem caps_negotiation_required (Z : Zlib) (env : Env) (cl : Cl) (input : Bytes)
+    (he : cl.ext = false) :
+    (feed Z env ⟨false⟩ cl input).cl.ext = false ∧
+    ∀ b, Cb.utf8 b ∉ (feed Z env ⟨false⟩ cl input).cbs := by
+  fun_induction feed Z env ⟨false⟩ cl input with
+  | case1 cl => simp [he]
+  | case2 cl t rest hc => simp [he]
+  | case3 cl t rest hc cl' cbs out k hs r ih =>
+    have hstep := stepMsg_noext Z env cl (t :: rest) he
+    rw [hs] at hstep
+    obtain ⟨h1, h2⟩ := ih hstep.1
+    refine ⟨h1, ?_⟩
+    intro b hb
+    rcases List.mem_append.mp hb with hb | hb
+    · exact hstep.2 b hb
+    · exact h2 b hb
+  | case4 cl t rest hc cl' cbs out hs =>
+    have hstep := stepMsg_noext Z env cl (t :: rest) he
+    rw [hs] at hstep
+    exact hstep
+  | case5 cl t rest hc hs => simp [he]
+
+/-- **a client Caps message** (flag word with the caps bit; `nf` = number of format bits 0..15 set;
+`body` = flag word followed by the size array), exact effect:
+* `nf ≥ 1`, array length ≠ `nf`: the connection is closed;
+* `nf ≥ 1`, right length, text format included: the server now remembers exactly the client's flag
+  word and the text size limit the client sent (first array entry); the extension stays enabled;
+* text format not offered (or no format at all): the extension is switched off again.
+Nothing is sent and no callback is made in any case. -/
+theorem caps_negotiation_update (Z : Zlib) (env : Env) (cfg : Cfg) (cl : Cl) (flags : Nat)
+    (sizes : Bytes) (hfl : flags < 4294967296) (hcaps : flags.testBit bCaps = true) :
+    handleExt Z env cfg cl (be32 flags ++ sizes) =
+      (if popFormats flags ≠ 0 ∧ sizes.length ≠ popFormats flags * 4 then
+         ⟨closeCl { cl with userCap := flags }, [], []⟩
+       else if flags.testBit bText = true then
+         ⟨{ cl with userCap := flags, maxUnsol := rd32 sizes,
+                    ext := if popFormats flags = 0 then false else cl.ext }, [], []⟩
+       else ⟨{ cl with userCap := flags, ext := false }, [], []⟩) := by
+  have hlen : ¬ (4 + sizes.length < extMinLen) := by simp [extMinLen]
+  have hrd : rd32 (be32 flags ++ sizes) = flags := rd32_be32 flags hfl sizes
+  have hdrop : (be32 flags ++ sizes).drop 4 = sizes := List.drop_left' (be32_length _)
+  have hl : (be32 flags ++ sizes).length = 4 + sizes.length := by simp [be32_length]
+  unfold handleExt
+  simp only [hl, hlen, if_false, hrd, hcaps, if_true, hdrop]
+  by_cases h0 : popFormats flags = 0
+  · simp [h0]
+  · by_cases hs : sizes.length = popFormats flags * 4
+    · simp [h0, hs]
+    · have : ¬ (4 + sizes.length = 4 + popFormats flags * 4) := by omega
+      simp [h0, hs]
+
+/-- non-vacuity: text+rtf offered with two sizes, limit 10 -/
+example : handleExt ⟨fun _ => ⟨[], .err⟩, id, id⟩ ⟨0⟩ ⟨true⟩ { ext := true }
+    (be32 (2 ^ 24 + 2 ^ 28 + 3) ++ be32 10 ++ be32 99) =
+    ⟨{ ext := true, userCap := 2 ^ 24 + 2 ^ 28 + 3, maxUnsol := 10 }, [], []⟩ := by
+  decide
+
+/-- **nothing unsolicited beyond the negotiated capabilities**: a provide leaves the server
+unasked only if the client's last capability word allows provides and the text is not longer than
+the client's announced limit; a notify only if the client accepts notifies; a client that did not
+enable the extension never gets an extended message (only the classic fallback). -/
+theorem caps_negotiation_unsolicited (cl : Cl) (t : Bytes) (fb : Option Bytes) :
+    (∀ r, SMsg.provide r ∈ (sendUtf8One cl t fb).2 →
+        cl.ext = true ∧ cl.userCap.testBit bProvide = true ∧ t.length ≤ cl.maxUnsol) ∧
+    (SMsg.notify ∈ (sendUtf8One cl t fb).2 → cl.ext = true ∧ cl.userCap.testBit bNotify = true) ∧
+    (cl.ext = false → ∀ m ∈ (sendUtf8One cl t fb).2, ∃ f, fb = some f ∧ m = .classic f) := by
+  simp only [sendUtf8One]
+  cases cl.isOpen <;> cases cl.ext <;> cases fb <;>
+    cases hP : cl.userCap.testBit bProvide <;> cases hN : cl.userCap.testBit bNotify <;>
+    by_cases hle : t.length ≤ cl.maxUnsol <;> simp [hle]
+
+/-! ## 4. limits: only the offender is closed -/
+
+/-- **classic length limit, exact**: a ClientCutText header announcing `n` bytes (not interpreted as
+extended: extension off, or `n < 2^31`) is accepted iff `n ≤ srvMsgLimit`: with `n = limit` (and the
+bytes present) the text is delivered; with `n = limit + 1` — or anything larger — the connection is
+closed before a single body byte is read, with no callback and no reply. -/
+theorem oversize_closes_classic (Z : Zlib) (env : Env) (cfg : Cfg) (cl : Cl) (p1 p2 p3 : UInt8)
+    (n : Nat) (tail : Bytes) (hn : n < 4294967296)
+    (hcl : cl.ext = false ∨ n < 2147483648) :
+    (n ≤ srvMsgLimit → n ≤ tail.length →
+      stepMsg Z env cfg cl ((6 : UInt8) :: p1 :: p2 :: p3 :: (be32 n ++ tail)) =
+        .next cl (if cl.viewOnly then [] else [Cb.latin1 (tail.take n)]) [] (8 + n)) ∧
+    (n > srvMsgLimit →
+      stepMsg Z env cfg cl ((6 : UInt8) :: p1 :: p2 :: p3 :: (be32 n ++ tail)) =
+        .closed (closeCl cl) [] []) := by
+  have hx : (cl.ext && decide (n ≥ 2147483648)) = false := by
+    rcases hcl with h | h
+    · simp [h]
+    · have : ¬ n ≥ 2147483648 := by omega
+      simp [this]
+  constructor
+  · intro h1 h2
+    simp only [stepMsg]
+    rw [if_pos (by decide), stepCut_hdr Z env cfg cl 6 p1 p2 p3 n hn tail]
+    simp [hx, Nat.not_lt.mpr h1, List.length_take, Nat.min_eq_left h2]
+  · intro h1
+    simp only [stepMsg]
+    rw [if_pos (by decide), stepCut_hdr Z env cfg cl 6 p1 p2 p3 n hn tail]
+    simp [hx, h1]
+
+/-- **extended messages are accepted only after negotiation**: on a client that has not enabled the
+extension (never announced the pseudo-encoding, or the application has no UTF-8 callback, or its
+Caps message withdrew the text format) every sign-encoded length is just a huge classic length:
+the connection is closed, nothing is delivered, nothing is sent. -/
+theorem caps_negotiation (Z : Zlib) (env : Env) (cfg : Cfg) (cl : Cl) (p1 p2 p3 : UInt8) (n : Nat)
+    (tail : Bytes) (he : cl.ext = false) (h1 : 2147483648 ≤ n) (h2 : n < 4294967296) :
+    stepMsg Z env cfg cl ((6 : UInt8) :: p1 :: p2 :: p3 :: (be32 n ++ tail)) =
+      .closed (closeCl cl) [] [] ∧
+    ({} : Cl).ext = false := by
+  have hlim : srvMsgLimit = 1048576 := rfl
+  exact ⟨(oversize_closes_classic Z env cfg cl p1 p2 p3 n tail h2 (Or.inl he)).2 (by omega), rfl⟩
+
+/-- the limit is exactly 1 MiB and both sides of it are inhabited -/
+example : srvMsgLimit = 1048576 ∧ srvMsgLimit + 1 > srvMsgLimit ∧ srvMsgLimit + 1 < 2147483648 := by decide
+
+/-- **extended length limit, exact**: on a client with the extension enabled a sign-encoded length
+`-n` is accepted iff `n ≤ srvMsgLimit`; `n = limit + 1` (or more, up to `2^31`) closes the
+connection with no callback and no reply. -/
+theorem oversize_closes_extended (Z : Zlib) (env : Env) (cfg : Cfg) (cl : Cl) (p1 p2 p3 : UInt8)
+    (n : Nat) (tail : Bytes) (he : cl.ext = true) (h1 : n > srvMsgLimit) (h2 : n ≤ 2147483648) :
+    stepMsg Z env cfg cl ((6 : UInt8) :: p1 :: p2 :: p3 :: (be32 (neg32 n) ++ tail)) =
+      .closed (closeCl cl) [] [] :=
+  stepMsg_ext_oversize Z env cfg cl p1 p2 p3 n tail he h1 h2
+
+/-- **record size limit, exact** (inside the zlib stream): a text record announcing `sz` bytes is
+refused — connection closed, no callback — as soon as `sz > srvRecLimit`, whatever follows in the
+stream; `sz = srvRecLimit` is accepted by `client_to_app_exact_provide`. -/
+theorem oversize_closes_record (Z : Zlib) (env : Env) (cfg : Cfg) (cl : Cl) (flags sz : Nat)
+    (z more : Bytes) (fin : Fin) (hfl : flags < 4294967296)
+    (hcaps : flags.testBit bCaps = false) (hreq : flags.testBit bRequest = false)
+    (hpeek : flags.testBit bPeek = false) (hprov : flags.testBit bProvide = true)
+    (htext : flags.testBit 0 = true)
+    (hz : Z.inflateAll z = ⟨be32 sz ++ more, fin⟩) (hsz : sz < 4294967296) (hbig : sz > srvRecLimit) :
+    handleExt Z env cfg cl (be32 flags ++ z) = ⟨closeCl cl, [], []⟩ := by
+  have hlen : ¬ (be32 flags ++ z).length < extMinLen := by simp [be32_length, extMinLen]
+  have hrd : rd32 (be32 flags ++ z) = flags := rd32_be32 flags hfl z
+  have hdrop : (be32 flags ++ z).drop 4 = z := List.drop_left' (be32_length _)
+  have hrec := readRecord_oversize env srvRecLimit sz (ZState.init Z z) more (by simp [ZState.init, hz]) hsz hbig
+  unfold handleExt
+  simp only [hlen, if_false, hrd, hcaps, hreq, hpeek, hprov, if_true, hdrop, range16, Bool.false_eq_true]
+  rw [provLoop]
+  simp [htext, hrec]
+
+/-- **malformed: declared size larger than the data present** (the defect fixed by
+fixes/C18-provide-size-check.diff): closed, no callback — the application never sees bytes that
+were not in the stream. -/
+theorem malformed_closes_short_record (Z : Zlib) (env : Env) (cfg : Cfg) (cl : Cl) (flags sz : Nat)
+    (z have_ : Bytes) (fin : Fin) (hfl : flags < 4294967296)
+    (hcaps : flags.testBit bCaps = false) (hreq : flags.testBit bRequest = false)
+    (hpeek : flags.testBit bPeek = false) (hprov : flags.testBit bProvide = true)
+    (htext : flags.testBit 0 = true)
+    (hz : Z.inflateAll z = ⟨be32 sz ++ have_, fin⟩) (hsz : sz < 4294967296)
+    (hshort : have_.length < sz) :
+    handleExt Z env cfg cl (be32 flags ++ z) = ⟨closeCl cl, [], []⟩ := by
+  have hlen : ¬ (be32 flags ++ z).length < extMinLen := by simp [be32_length, extMinLen]
+  have hrd : rd32 (be32 flags ++ z) = flags := rd32_be32 flags hfl z
+  have hdrop : (be32 flags ++ z).drop 4 = z := List.drop_left' (be32_length _)
+  have hrec := readRecord_short env srvRecLimit sz (ZState.init Z z) have_ (by simp [ZState.init, hz]) hsz hshort
+  unfold handleExt
+  simp only [hlen, if_false, hrd, hcaps, hreq, hpeek, hprov, if_true, hdrop, range16, Bool.false_eq_true]
+  rw [provLoop]
+  simp [htext, hrec]
+
+/-- **malformed: too short for a flag word** (sign-encoded lengths −1, −2, −3 … and −0 is not
+negative): closed. -/
+theorem malformed_closes_no_flags (Z : Zlib) (env : Env) (cfg : Cfg) (cl : Cl) (body : Bytes)
+    (h : body.length < 4) : handleExt Z env cfg cl body = ⟨closeCl cl, [], []⟩ := by
+  unfold handleExt
+  simp [extMinLen, h]
+
+/-- **malformed: stream too short for a size word, or in error before it** (truncated zlib data,
+garbage): closed, no callback — for every value the uninitialised `size` variable may hold. -/
+theorem malformed_closes_truncated (Z : Zlib) (env : Env) (cfg : Cfg) (cl : Cl) (flags : Nat)
+    (z : Bytes) (hfl : flags < 4294967296)
+    (hcaps : flags.testBit bCaps = false) (hreq : flags.testBit bRequest = false)
+    (hpeek : flags.testBit bPeek = false) (hprov : flags.testBit bProvide = true)
+    (htext : flags.testBit 0 = true) (hz : (Z.inflateAll z).out.length < 4) :
+    handleExt Z env cfg cl (be32 flags ++ z) = ⟨closeCl cl, [], []⟩ := by
+  have hlen : ¬ (be32 flags ++ z).length < extMinLen := by simp [be32_length, extMinLen]
+  have hrd : rd32 (be32 flags ++ z) = flags := rd32_be32 flags hfl z
+  have hdrop : (be32 flags ++ z).drop 4 = z := List.drop_left' (be32_length _)
+  have hrec := readRecord_tiny env srvRecLimit (ZState.init Z z) (by simpa [ZState.init] using hz)
+  unfold handleExt
+  simp only [hlen, if_false, hrd, hcaps, hreq, hpeek, hprov, if_true, hdrop, range16, Bool.false_eq_true]
+  rw [provLoop]
+  simp [htext, hrec]
+
+/-- **only the offender**: whatever bytes arrive from client `id` — well-formed, oversized or
+malformed, any number of messages — every other client's record (open/closed, capabilities, cached
+text) and the screen configuration are exactly what they were; callbacks and replies of that input
+belong to `id` alone (`FeedRes` carries no other client). -/
+theorem oversize_closes_only_offender (Z : Zlib) (env : Env) (s : Sys) (id j : Nat) (input : Bytes)
+    (hj : j ≠ id) :
+    (s.feed Z env id input).1.get j = s.get j ∧ (s.feed Z env id input).1.cfg = s.cfg := by
+  unfold Sys.feed
+  cases hg : s.get id with
+  | none => exact ⟨rfl, rfl⟩
+  | some cl => exact ⟨get_set_ne s id j _ hj, rfl⟩
+
+/-- **intact or not at all** (every flag word, every stream, every `env`): whatever a provide
+message makes the handler deliver to `setXCutTextUTF8` is a record that is literally present in the
+inflated stream — four bytes announcing its length, then exactly these bytes, at most
+`srvRecLimit` of them.  No byte the client did not send ever reaches the application. -/
+theorem client_to_app_no_invented_bytes (Z : Zlib) (env : Env) (cfg : Cfg) (cl : Cl) (flags : Nat)
+    (z : Bytes) (hfl : flags < 4294967296) (hcaps : flags.testBit bCaps = false)
+    (hreq : flags.testBit bRequest = false) (hpeek : flags.testBit bPeek = false) :
+    (∀ b, Cb.utf8 b ∈ (handleExt Z env cfg cl (be32 flags ++ z)).cbs →
+      IsRecordOf (Z.inflateAll z).out b srvRecLimit) ∧
+    (∀ b, Cb.latin1 b ∉ (handleExt Z env cfg cl (be32 flags ++ z)).cbs) ∧
+    ((handleExt Z env cfg cl (be32 flags ++ z)).cl = cl ∨
+     (handleExt Z env cfg cl (be32 flags ++ z)).cl = closeCl cl) := by
+  have hlen : ¬ (be32 flags ++ z).length < extMinLen := by simp [be32_length, extMinLen]
+  have hrd : rd32 (be32 flags ++ z) = flags := rd32_be32 flags hfl z
+  have hdrop : (be32 flags ++ z).drop 4 = z := List.drop_left' (be32_length _)
+  unfold handleExt
+  simp only [hlen, if_false, hrd, hcaps, hreq, hpeek, hdrop, Bool.false_eq_true]
+  by_cases hp : flags.testBit bProvide = true
+  · simp only [hp, if_true]
+    refine ⟨?_, ?_, ?_⟩
+    · exact provLoop_sound env cfg cl.viewOnly flags (Z.inflateAll z).out _ _ []
+        (by simp) ⟨[], by simp [ZState.init]⟩
+    · intro b hb
+      have hnl : ∀ is st cbs, (∀ b, Cb.latin1 b ∉ cbs) →
+          ∀ b, Cb.latin1 b ∉ (provLoop env cfg cl.viewOnly flags is st cbs).2 := by
+        intro is
+        induction is with
+        | nil => intro st cbs h; simpa [provLoop] using h
+        | cons i is ih =>
+          intro st cbs h
+          rw [provLoop]
+          split
+          · exact ih st cbs h
+          · split
+            · simpa using h
+            · apply ih
+              intro b
+              split
+              · simp [h b]
+              · exact h b
+      exact hnl _ _ [] (by simp) b hb
+    · cases (provLoop env cfg cl.viewOnly flags (List.range nFormatBits) (ZState.init Z z) []).1 <;> simp
+  · simp [hp]
+
+/-! ## 5. request / peek after a publish -/
+
+/-- **request → provide**: after the application published `t`, an extended client that sends a
+Request (any flag word with the request bit and without the caps bit, any trailing bytes) is
+answered with exactly one provide whose record is the published text plus NUL, declared size
+`|t| + 1` — if and only if its capability word allows provides; its state is otherwise unchanged.
+This holds whether the publish itself sent a provide, only a notify, or nothing. -/
+theorem request_then_provide (Z : Zlib) (env : Env) (cfg : Cfg) (cl : Cl) (t : Bytes)
+    (fb : Option Bytes) (flags : Nat) (junk : Bytes)
+    (ho : cl.isOpen = true) (he : cl.ext = true) (hfl : flags < 4294967296)
+    (hcaps : flags.testBit bCaps = false) (hreq : flags.testBit bRequest = true) :
+    (sendUtf8One cl t fb).1 = { cl with data := some (t ++ [0]) } ∧
+    handleExt Z env cfg (sendUtf8One cl t fb).1 (be32 flags ++ junk) =
+      ⟨(sendUtf8One cl t fb).1, [],
+       if cl.userCap.testBit bProvide = true then [.provide (record (t ++ [0]))] else []⟩ := by
+  have hst : (sendUtf8One cl t fb).1 = { cl with data := some (t ++ [0]) } := by
+    simp only [sendUtf8One, ho, he]
+    cases cl.userCap.testBit bProvide <;> cases cl.userCap.testBit bNotify <;>
+      by_cases hle : t.length ≤ cl.maxUnsol <;> simp [hle]
+  refine ⟨hst, ?_⟩
+  have hlen : ¬ (be32 flags ++ junk).length < extMinLen := by simp [be32_length, extMinLen]
+  have hrd : rd32 (be32 flags ++ junk) = flags := rd32_be32 flags hfl junk
+  rw [hst]
+  unfold handleExt
+  simp only [hlen, if_false, hrd, hcaps, hreq, if_true, Bool.false_eq_true]
+  cases cl.userCap.testBit bProvide <;> simp
+
+/-- **peek → notify**: likewise a Peek is answered with one notify iff the client accepts notifies. -/
+theorem peek_then_notify (Z : Zlib) (env : Env) (cfg : Cfg) (cl : Cl) (t : Bytes)
+    (fb : Option Bytes) (flags : Nat) (junk : Bytes)
+    (ho : cl.isOpen = true) (he : cl.ext = true) (hfl : flags < 4294967296)
+    (hcaps : flags.testBit bCaps = false) (hreq : flags.testBit bRequest = false)
+    (hpeek : flags.testBit bPeek = true) :
+    handleExt Z env cfg (sendUtf8One cl t fb).1 (be32 flags ++ junk) =
+      ⟨(sendUtf8One cl t fb).1, [], if cl.userCap.testBit bNotify = true then [.notify] else []⟩ := by
+  have hst := (request_then_provide Z env cfg cl t fb (2 ^ 25) [] ho he (by decide) (by decide) (by decide)).1
+  have hlen : ¬ (be32 flags ++ junk).length < extMinLen := by simp [be32_length, extMinLen]
+  have hrd : rd32 (be32 flags ++ junk) = flags := rd32_be32 flags hfl junk
+  rw [hst]
+  unfold handleExt
+  simp only [hlen, if_false, hrd, hcaps, hreq, hpeek, if_true, Bool.false_eq_true]
+  cases cl.userCap.testBit bNotify <;> simp
+
+/-- before anything was published there is nothing to provide: a Request is silently ignored -/
+theorem request_without_publish (Z : Zlib) (env : Env) (cfg : Cfg) (cl : Cl) (flags : Nat)
+    (junk : Bytes) (hd : cl.data = none) (hfl : flags < 4294967296)
+    (hcaps : flags.testBit bCaps = false) (hreq : flags.testBit bRequest = true) :
+    handleExt Z env cfg cl (be32 flags ++ junk) = ⟨cl, [], []⟩ := by
+  have hlen : ¬ (be32 flags ++ junk).length < extMinLen := by simp [be32_length, extMinLen]
+  have hrd : rd32 (be32 flags ++ junk) = flags := rd32_be32 flags hfl junk
+  unfold handleExt
+  simp only [hlen, if_false, hrd, hcaps, hreq, if_true, hd, Bool.false_eq_true]
+
+/-- non-vacuity: notify-only publish (text longer than the client's limit), then request -/
+example : (sendUtf8One { ext := true, maxUnsol := 1 } [65, 66] none).2 = [.notify] ∧
+    (handleExt ⟨fun _ => ⟨[], .err⟩, id, id⟩ ⟨0⟩ ⟨true⟩
+      (sendUtf8One { ext := true, maxUnsol := 1 } [65, 66] none).1 (be32 (2 ^ 25 + 1))).out =
+      [.provide (record [65, 66, 0])] := by decide
+
+/-! ## 6. LibVNCClient decodes what the server encodes (and vice versa) -/
+
+/-- **server provide → client callback** (composition under the zlib law): the wire bytes of a
+provide whose record is `d` (for a publish of `t`: `d = t ++ [0]`), followed by any further server
+output `rest`, make `GotXCutTextUTF8` receive exactly `d`; the client keeps the connection. -/
+theorem client_roundtrip_provide (Z : Zlib) (hZ : ZLaw Z) (env : Env) (c : LC) (d rest : Bytes)
+    (hu : c.hasU8 = true) (hd1 : d ≠ []) (hd2 : d.length ≤ cliRecLimit)
+    (hm : 4 + (Z.compress (record d)).length ≤ cliMsgLimit) :
+    cliFeed Z env c (SMsg.wire Z (.provide (record d)) ++ rest) =
+      ⟨(cliFeed Z env c rest).c, CCb.utf8 d :: (cliFeed Z env c rest).cbs,
+       (cliFeed Z env c rest).dropped, (cliFeed Z env c rest).unmodelled⟩ := by
+  have hlim : cliMsgLimit = 1048576 := rfl
+  have hlim2 : cliRecLimit = 1048576 := rfl
+  have hzl : 0 < 4 + (Z.compress (record d)).length := by omega
+  have hge := neg32_ge (4 + (Z.compress (record d)).length) hzl (by omega)
+  have hnn := neg32_neg32 (4 + (Z.compress (record d)).length) (by omega)
+  have hbl : (be32 srvProvideFlags ++ Z.compress (record d)).length = 4 + (Z.compress (record d)).length := by
+    simp [be32_length]
+  -- the extended handler on this body
+  have hext : cliExt Z env c (be32 srvProvideFlags ++ Z.compress (record d)) = some (c, [CCb.utf8 d]) := by
+    have hrd : rd32 (be32 srvProvideFlags ++ Z.compress (record d)) = srvProvideFlags :=
+      rd32_be32 _ (by decide) _
+    have hdrop : (be32 srvProvideFlags ++ Z.compress (record d)).drop 4 = Z.compress (record d) :=
+      List.drop_left' (be32_length _)
+    have hinit : ZState.init Z (Z.compress (record d)) = ⟨be32 d.length ++ d ++ [], .done, true, false⟩ := by
+      have hne := hZ.compress_ne (record d)
+      have he : (Z.compress (record d)).isEmpty = false := by
+        cases h : Z.compress (record d) <;> simp_all
+      have hr : record d = be32 d.length ++ d ++ [] := by simp [record]
+      simp only [ZState.init, hZ.inflate_compress, he]
+      rw [hr]
+    have hrec := readRecord_ok env cliRecLimit d [] .done true hd1 hd2 (by omega) (by intro _ h; cases h)
+    have h1 : srvProvideFlags.testBit bText = true := by decide
+    have h2 : srvProvideFlags.testBit bProvide = true := by decide
+    have h3 : srvProvideFlags.testBit bCaps = false := by decide
+    unfold cliExt
+    simp only [hbl, hrd, h1, h2, h3, hdrop, hinit, hrec]
+    simp
+  have hstep : cliStepMsg Z env c ((3 : UInt8) :: (([0, 0, 0] ++
+      be32 (neg32 (4 + (Z.compress (record d)).length)) ++
+      (be32 srvProvideFlags ++ Z.compress (record d))) ++ rest)) =
+      CStep.next c [CCb.utf8 d] (8 + (4 + (Z.compress (record d)).length)) := by
+    have hform : (3 : UInt8) :: (([0, 0, 0] ++ be32 (neg32 (4 + (Z.compress (record d)).length)) ++
+        (be32 srvProvideFlags ++ Z.compress (record d))) ++ rest) =
+        (3 : UInt8) :: 0 :: 0 :: 0 :: (be32 (neg32 (4 + (Z.compress (record d)).length)) ++
+          ((be32 srvProvideFlags ++ Z.compress (record d)) ++ rest)) := by simp
+    rw [hform]
+    simp only [cliStepMsg]
+    rw [if_pos (by decide), cliStepCut_hdr Z env c 3 0 0 0 _ (neg32_lt _) _]
+    simp only [hge, decide_true, if_true, hnn, Nat.not_lt.mpr hm, if_false, Bool.true_and, hu]
+    rw [← hbl, List.take_left' rfl]
+    simp [cliExtStep, hext, hbl]
+  have hk : 8 + (4 + (Z.compress (record d)).length) =
+      ([0, 0, 0] ++ be32 (neg32 (4 + (Z.compress (record d)).length)) ++
+        (be32 srvProvideFlags ++ Z.compress (record d)) : Bytes).length + 1 := by
+    simp [be32_length]; omega
+  rw [hk] at hstep
+  have hw : SMsg.wire Z (.provide (record d)) ++ rest = (3 : UInt8) :: (([0, 0, 0] ++
+      be32 (neg32 (4 + (Z.compress (record d)).length)) ++
+      (be32 srvProvideFlags ++ Z.compress (record d))) ++ rest) := by
+    simp [SMsg.wire, msgServerCutText]
+  rw [hw, cliFeed_msg_append Z env c c _ _ rest _ hstep]
+  simp
+
+/-- **classic ServerCutText → `GotXCutText`**: exactly the `|t| ≤ 1 MiB` bytes the server put in. -/
+theorem client_roundtrip_classic (Z : Zlib) (env : Env) (c : LC) (t rest : Bytes)
+    (hl1 : c.hasL1 = true) (hl : t.length ≤ cliMsgLimit) :
+    cliFeed Z env c (SMsg.wire Z (.classic t) ++ rest) =
+      ⟨(cliFeed Z env c rest).c, CCb.latin1 t :: (cliFeed Z env c rest).cbs,
+       (cliFeed Z env c rest).dropped, (cliFeed Z env c rest).unmodelled⟩ := by
+  have hlim : cliMsgLimit = 1048576 := rfl
+  have hstep : cliStepMsg Z env c ((3 : UInt8) :: (([0, 0, 0] ++ be32 t.length ++ t) ++ rest)) =
+      CStep.next c [CCb.latin1 t] (8 + t.length) := by
+    have hform : (3 : UInt8) :: (([0, 0, 0] ++ be32 t.length ++ t) ++ rest) =
+        (3 : UInt8) :: 0 :: 0 :: 0 :: (be32 t.length ++ (t ++ rest)) := by simp
+    rw [hform]
+    simp only [cliStepMsg]
+    rw [if_pos (by decide), cliStepCut_hdr Z env c 3 0 0 0 _ (by omega) _]
+    have hge : ¬ t.length ≥ 2147483648 := by omega
+    simp [hge, List.take_left' rfl, Nat.not_lt.mpr hl, hl1]
+  have hk : 8 + t.length = ([0, 0, 0] ++ be32 t.length ++ t : Bytes).length + 1 := by
+    simp [be32_length]; omega
+  rw [hk] at hstep
+  have hw : SMsg.wire Z (.classic t) ++ rest = (3 : UInt8) :: (([0, 0, 0] ++ be32 t.length ++ t) ++ rest) := by
+    simp [SMsg.wire, msgServerCutText]
+  rw [hw, cliFeed_msg_append Z env c c _ _ rest _ hstep]
+  simp
+
+/-- **the server's capability message enables `SendClientCutTextUTF8`**: after it the client's
+capability word is non-zero (text), no callback is made, the connection is kept. -/
+theorem client_roundtrip_caps (Z : Zlib) (env : Env) (c : LC) (rest : Bytes) (hu : c.hasU8 = true) :
+    cliFeed Z env c (SMsg.wire Z .caps ++ rest) =
+      ⟨(cliFeed Z env { c with caps := c.caps ||| 1 } rest).c,
+       (cliFeed Z env { c with caps := c.caps ||| 1 } rest).cbs,
+       (cliFeed Z env { c with caps := c.caps ||| 1 } rest).dropped,
+       (cliFeed Z env { c with caps := c.caps ||| 1 } rest).unmodelled⟩ ∧
+    (c.caps ||| 1) ≠ 0 := by
+  constructor
+  · have hw : SMsg.wire Z .caps ++ rest =
+        (3 : UInt8) :: (([0, 0, 0] ++ be32 (neg32 8) ++ [23, 0, 0, 1, 0, 16, 0, 0]) ++ rest) := by
+      simp [SMsg.wire, natsToBytes, srvCapsMsg, be32, neg32]
+    have hstep : cliStepMsg Z env c ((3 : UInt8) :: (([0, 0, 0] ++ be32 (neg32 8) ++
+        [23, 0, 0, 1, 0, 16, 0, 0]) ++ rest)) =
+        CStep.next { c with caps := c.caps ||| 1 } [] (8 + 8) := by
+      have hform : (3 : UInt8) :: (([0, 0, 0] ++ be32 (neg32 8) ++ [23, 0, 0, 1, 0, 16, 0, 0]) ++ rest) =
+          (3 : UInt8) :: 0 :: 0 :: 0 :: (be32 (neg32 8) ++ ([23, 0, 0, 1, 0, 16, 0, 0] ++ rest)) := by simp
+      rw [hform]
+      simp only [cliStepMsg]
+      rw [if_pos (by decide), cliStepCut_hdr Z env c 3 0 0 0 _ (neg32_lt _) _]
+      have hge : neg32 8 ≥ 2147483648 := by decide
+      have hnn : neg32 (neg32 8) = 8 := by decide
+      have h8 : ¬ 8 > cliMsgLimit := by decide
+      have htk : (([23, 0, 0, 1, 0, 16, 0, 0] : Bytes) ++ rest).take 8 = [23, 0, 0, 1, 0, 16, 0, 0] :=
+        List.take_left' rfl
+      simp only [hge, decide_true, if_true, hnn, h8, if_false, htk, Bool.true_and, hu]
+      have hext : cliExt Z env c [23, 0, 0, 1, 0, 16, 0, 0] = some ({ c with caps := c.caps ||| 1 }, []) := by
+        have hrd : rd32 ([23, 0, 0, 1, 0, 16, 0, 0] : Bytes) = 385875969 := by decide
+        have h1 : (385875969 : Nat).testBit bText = true := by decide
+        have h2 : (385875969 : Nat).testBit bProvide = true := by decide
+        have h3 : (385875969 : Nat).testBit bCaps = true := by decide
+        unfold cliExt
+        simp [hrd, h2, h3, bText]
+      simp [cliExtStep, hext, hu]
+    have hk : 8 + 8 = ([0, 0, 0] ++ be32 (neg32 8) ++ [23, 0, 0, 1, 0, 16, 0, 0] : Bytes).length + 1 := by
+      simp [be32_length]
+    rw [hk] at hstep
+    rw [hw, cliFeed_msg_append Z env c _ _ _ rest _ hstep]
+    simp
+  · intro h
+    have : (c.caps ||| 1).testBit 0 = true := by simp
+    rw [h] at this
+    simp at this
+
+/-- **over-limit text is refused by the client alone**: a classic ServerCutText announcing more
+than `cliMsgLimit` bytes makes the client give up its own connection (the server model is not
+involved: other connections are untouched by construction). -/
+theorem client_refuses_oversize (Z : Zlib) (env : Env) (c : LC) (p1 p2 p3 : UInt8) (n : Nat)
+    (tail : Bytes) (hn : n < 2147483648) (hbig : n > cliMsgLimit) :
+    cliFeed Z env c ((3 : UInt8) :: p1 :: p2 :: p3 :: (be32 n ++ tail)) = ⟨c, [], true, false⟩ := by
+  apply cliFeed_drop
+  simp only [cliStepMsg]
+  rw [if_pos (by decide), cliStepCut_hdr Z env c 3 p1 p2 p3 n (by omega) tail]
+  have hge : ¬ n ≥ 2147483648 := by omega
+  simp [hge, hbig]
+
+/- Full-strength statement (false of the code for incompressible texts near 1 MiB, as in section 1):
+     every open extended client whose capabilities allow it receives `t ++ [0]` for every
+     `t.length + 1 ≤ 2^20`.  Proved: for every text whose compressed provide message fits the
+     client's message limit (`4 + |compress (record (t ++ [0]))| ≤ cliMsgLimit`); longer messages
+     make the client give up its connection (`client_refuses_oversize`, same step for the
+     sign-encoded length). -/
+
+/-- **round trip for a whole population**: publish `t` (fallback `f`) on any screen; a LibVNCClient
+sitting on the connection of an open extended client whose capabilities allow the unsolicited
+provide gets `GotXCutTextUTF8 (t ++ [0])`; one on an open classic connection gets `GotXCutText f`.
+Partial: the compressed-size hypothesis of the extended half. -/
+theorem client_roundtrip_partial (Z : Zlib) (hZ : ZLaw Z) (env : Env) (cl : Cl) (c : LC) (t f : Bytes)
+    (ho : cl.isOpen = true) :
+    (cl.ext = true → cl.userCap.testBit bProvide = true → t.length ≤ cl.maxUnsol → c.hasU8 = true →
+      t.length + 1 ≤ cliRecLimit → 4 + (Z.compress (record (t ++ [0]))).length ≤ cliMsgLimit →
+      cliFeed Z env c ((expectUtf8 cl t (some f)).flatMap (SMsg.wire Z)) =
+        ⟨c, [CCb.utf8 (t ++ [0])], false, false⟩) ∧
+    (cl.ext = false → c.hasL1 = true → f.length ≤ cliMsgLimit →
+      cliFeed Z env c ((expectUtf8 cl t (some f)).flatMap (SMsg.wire Z)) =
+        ⟨c, [CCb.latin1 f], false, false⟩) := by
+  constructor
+  · intro he hp hle hu hs hm
+    have : expectUtf8 cl t (some f) = [.provide (record (t ++ [0]))] := by
+      simp [expectUtf8, ho, he, hp, hle]
+    rw [this]
+    have h := client_roundtrip_provide Z hZ env c (t ++ [0]) [] hu (by simp) (by simpa using hs) hm
+    simpa [cliFeed_nil] using h
+  · intro he hl1 hl
+    have : expectUtf8 cl t (some f) = [.classic f] := by
+      simp [expectUtf8, ho, he]
+    rw [this]
+    have h := client_roundtrip_classic Z env c f [] hl1 hl
+    simpa [cliFeed_nil] using h
+
 
 end VncModel.Props.C18
